@@ -914,7 +914,12 @@ impl C01 {
             }
         };
         // ---- lift
-        let lifted = guard(|| if mode64 { Amd64::new().translate_block(&e.bytes, CODE_ADDR, &Options::default()) } else { X86::new().translate_block(&e.bytes, CODE_ADDR, &Options::default()) });
+        // one case in four lifts the instruction as the second one of its block (after a nop that ends right in
+        // front of it), so that block-relative bookkeeping such as the fall-through address is exercised too
+        let pre: Vec<u8> = if rng.chance(1, 4) { rng.pick(&[vec![0x90u8], vec![0x66, 0x90], vec![0x0f, 0x1f, 0x00]]).clone() } else { Vec::new() };
+        let lift_bytes: Vec<u8> = pre.iter().chain(e.bytes.iter()).cloned().collect();
+        let lift_addr = CODE_ADDR - pre.len() as u64;
+        let lifted = guard(|| if mode64 { Amd64::new().translate_block(&lift_bytes, lift_addr, &Options::default()) } else { X86::new().translate_block(&lift_bytes, lift_addr, &Options::default()) });
         let mode = if mode64 { "amd64" } else { "x86" };
         let btr = match lifted {
             Err(p) => {
@@ -933,7 +938,7 @@ impl C01 {
             }
             Ok(Ok(b)) => b,
         };
-        if btr.length() != e.bytes.len() || btr.instructions().len() != 1 && !(btr.instructions().len() >= 1 && btr.length() == e.bytes.len()) {
+        if btr.length() != lift_bytes.len() || btr.instructions().last().map(|i| i.0) != Some(CODE_ADDR) {
             ctx.count("decoded_length_differs(skipped)");
             return;
         }
